@@ -1,10 +1,12 @@
 (* C17 - Application lifecycle and start modes.  Statements only; proofs in App/SeqProofs.v
-   (sequential model, every state of the application record) and App/Proofs.v (small-step model,
-   every schedule that respects the quiescent-restart guard `adm`). *)
-From Ergo Require Import Common.Base App.Seq App.Cases App.Model App.SeqProofs App.Proofs.
+   (sequential model, every state of the application record), App/SeqHist.v (sequential model, every
+   history of operations) and App/Proofs.v (small-step model in which application.start is a thread
+   program with one step per member spawn: every schedule that respects the quiescent-restart guard
+   `adm`, member deaths and stop calls during the spawn loop included). *)
+From Ergo Require Import Common.Base App.Seq App.Cases App.SeqProofs App.SeqHist App.Model App.Proofs.
 
-(* members in spec order, then the Start callback, exactly once per successful start; the
-   dependencies are handled by the recursion of Seq.start_rec before app_start is reached *)
+(* ---- operation level (sequential model, every state) ------------------------------------ *)
+(* members in spec order, then the Start callback, exactly once per successful start *)
 Theorem C17_start_order a sp x mode :
   a_st x = 1 -> fail_index sp x = None ->
   app_start a sp x mode =
@@ -12,6 +14,50 @@ Theorem C17_start_order a sp x mode :
   count_ev (is_start_of a) (start_block a (sp_n sp) mode) = 1.
 Proof. exact (seq_start_order a sp x mode). Qed.
 Print Assumptions C17_start_order.
+
+(* ... and the dependencies first: when ApplicationStart reports success every dependency is running,
+   everything of the dependencies happened before the first member of the application was spawned *)
+Theorem C17_start_order_deps_first specs fuel nd vis a nd' evs :
+  wf nd -> start_rec fuel specs nd vis a = (nd', 0, evs) ->
+  (forall d, In d (sp_deps (spec_of specs a)) -> a_st (get nd' d) = 2) /\
+  (exists pre, evs = pre ++ start_block a (sp_n (spec_of specs a)) (sp_mode (spec_of specs a)) /\
+               forall e, In e pre -> ev_app e <> a /\ ~ In (ev_app e) vis) /\
+  a_st (get nd a) = 1 /\ a_st (get nd' a) = 2 /\
+  a_mode (get nd' a) = sp_mode (spec_of specs a) /\
+  a_live (get nd' a) = seq 0 (sp_n (spec_of specs a)).
+Proof. exact (hist_deps_first specs fuel nd vis a nd' evs). Qed.
+Print Assumptions C17_start_order_deps_first.
+
+(* on an acyclic dependency graph of loaded, willing applications the start succeeds (never
+   ErrApplicationDepends), with the fuel the model uses *)
+Theorem C17_start_acyclic_succeeds specs (rank : nat -> nat) (R : nat -> Prop) nd a :
+  (forall a d, R a -> In d (sp_deps (spec_of specs a)) -> rank d < rank a /\ R d) ->
+  wf nd -> length nd <= length specs -> ready specs R nd -> R a ->
+  exists nd' r e, start_rec (fuel_for specs) specs nd [] a = (nd', r, e) /\ (r = 0 \/ r = 1) /\ SeqHist.st nd' a = 2.
+Proof. exact (hist_acyclic_start_succeeds specs rank R nd a). Qed.
+Print Assumptions C17_start_acyclic_succeeds.
+
+(* the fuel of the dependency recursion never runs out: number of loaded applications + 1 suffices,
+   more fuel changes nothing (the cycle check of fix b7945d3 bounds the depth) *)
+Theorem C17_start_fuel_sufficient specs fuel nd vis a :
+  wf nd -> NoDup vis -> (forall v, In v vis -> a_st (get nd v) <> 0) ->
+  loaded_count nd < fuel + length vis ->
+  snd (fst (start_rec fuel specs nd vis a)) <> 9 /\
+  forall k, start_rec (fuel + k) specs nd vis a = start_rec fuel specs nd vis a.
+Proof. exact (hist_fuel_sufficient specs fuel nd vis a). Qed.
+Print Assumptions C17_start_fuel_sufficient.
+
+Theorem C17_start_fuel_loaded_plus_one specs nd a :
+  wf nd ->
+  snd (fst (start_rec (loaded_count nd + 1) specs nd [] a)) <> 9 /\
+  forall k, start_rec (loaded_count nd + 1 + k) specs nd [] a = start_rec (loaded_count nd + 1) specs nd [] a.
+Proof. exact (fuel_loaded_count_suffices specs nd a). Qed.
+Print Assumptions C17_start_fuel_loaded_plus_one.
+
+Theorem C17_no_fuel_exhaustion specs ops :
+  Forall (fun s => o_ret (snd s) <> 9) (seq_run specs (init_node specs) ops).
+Proof. exact (hist_no_fuel_exhaustion specs ops). Qed.
+Print Assumptions C17_no_fuel_exhaustion.
 
 Theorem C17_failed_start_clean a sp x mode k :
   a_st x = 1 -> fail_index sp x = Some k ->
@@ -36,8 +82,54 @@ Theorem C17_mode_rule_when mode r :
 Proof. exact (seq_rule_fires_spec mode r). Qed.
 Print Assumptions C17_mode_rule_when.
 
-(* small-step: once stopping, every member still in the group has been told to terminate or the
-   thread that switched the state is about to tell them - all guarded schedules *)
+(* ---- history level (sequential model, every sequence of operations) --------------------- *)
+(* Start callback count = number of successful starts (steps in which the application goes from
+   loaded to running); ApplicationStart{Temporary,Transient,Permanent} reports success iff it did *)
+Theorem C17_hist_start_count specs ops nd a : wf nd ->
+  count_ev (is_start_of a) (hist_ev (seq_trace specs nd ops)) =
+  length (filter (goes a 1 2) (seq_trace specs nd ops)).
+Proof. exact (hist_start_count specs ops nd a). Qed.
+Print Assumptions C17_hist_start_count.
+
+Theorem C17_hist_start_ret specs ops nd : wf nd -> Forall start_ret_ok (seq_trace specs nd ops).
+Proof. exact (hist_start_ret specs ops nd). Qed.
+Print Assumptions C17_hist_start_ret.
+
+(* Terminate callback exactly once per completed run, with the causing reason, after the last member
+   has gone; Start and Terminate alternate, a Start is pending at the end iff the application runs *)
+Theorem C17_hist_terminate_once_with_cause specs ops nd a : wf nd ->
+  let tr := seq_trace specs nd ops in
+  let h := hist_ev tr in
+  count_ev (is_term_of a) h = length (filter (goes a 2 1) tr) /\
+  Forall (term_cause_ok a) tr /\
+  alternating a (SeqHist.st nd a =? 2) (proj a h) (SeqHist.st (seq_final specs nd ops) a =? 2) /\
+  count_ev (is_start_of a) h + (if SeqHist.st nd a =? 2 then 1 else 0) =
+  count_ev (is_term_of a) h + (if SeqHist.st (seq_final specs nd ops) a =? 2 then 1 else 0).
+Proof. exact (hist_terminate_once_with_cause specs ops nd a). Qed.
+Print Assumptions C17_hist_terminate_once_with_cause.
+
+Theorem C17_hist_terminate_once_init specs ops a :
+  let h := hist_ev (seq_trace specs (init_node specs) ops) in
+  let fin := seq_final specs (init_node specs) ops in
+  alternating a false (proj a h) (SeqHist.st fin a =? 2) /\
+  count_ev (is_start_of a) h = count_ev (is_term_of a) h + (if SeqHist.st fin a =? 2 then 1 else 0).
+Proof. exact (hist_terminate_once_init specs ops a). Qed.
+Print Assumptions C17_hist_terminate_once_init.
+
+(* after every completed stop no member is alive; an application that is not running never has one *)
+Theorem C17_hist_stop_clean specs ops nd : wf nd -> Forall stop_clean_ok (seq_trace specs nd ops).
+Proof. exact (hist_stop_clean specs ops nd). Qed.
+Print Assumptions C17_hist_stop_clean.
+
+(* the histories the theorems speak about are the histories of the model the harness compares with *)
+Theorem C17_hist_trace_is_run specs ops nd :
+  map (fun t => (t_op t, t_obs t)) (seq_trace specs nd ops) = seq_run specs nd ops.
+Proof. exact (seq_trace_run specs ops nd). Qed.
+Print Assumptions C17_hist_trace_is_run.
+
+(* ---- small-step: all guarded schedules, deaths and stops during the spawn loop included --- *)
+(* once stopping, every member whose start call is past its check has been told to terminate or the
+   thread that switched the state is about to tell them; a member spawned later is told by the start *)
 Theorem C17_mode_rule_all_told n m threads sched :
   forallb initial_pc threads = true ->
   let c := run_adm sched (init_cfg n m threads) in
@@ -45,14 +137,37 @@ Theorem C17_mode_rule_all_told n m threads sched :
 Proof. intros H. exact (stopping_tells_all n m threads sched H). Qed.
 Print Assumptions C17_mode_rule_all_told.
 
-(* Terminate callback at most once per run and never while running / stopping - all guarded
-   schedules of concurrent member deaths, stop calls, starts and unloads *)
+Theorem C17_late_member_told s fail k :
+  st s <> SR -> step_pc s (S_chk fail k) = Some (s, S_spawn fail (S k)).
+Proof. exact (late_member_told s fail k). Qed.
+Print Assumptions C17_late_member_told.
+
+(* Terminate callback at most once per run, never while running / stopping, and only after the
+   (single) Start callback of the same run *)
 Theorem C17_terminate_once_with_cause n m threads sched :
   forallb initial_pc threads = true ->
   let c := run_adm sched (init_cfg n m threads) in
-  runterms (sh c) <= 1 /\ (st (sh c) = SR \/ st (sh c) = SS -> runterms (sh c) = 0).
+  runterms (sh c) <= 1 /\ (st (sh c) = SR \/ st (sh c) = SS -> runterms (sh c) = 0) /\
+  runstarts (sh c) <= 1 /\ (runterms (sh c) >= 1 -> runstarts (sh c) = 1).
 Proof. intros H. exact (terminate_once n m threads sched H). Qed.
 Print Assumptions C17_terminate_once_with_cause.
+
+(* the run is not finalised while start is spawning the members / running the Start callback *)
+Theorem C17_no_finalise_while_starting n m threads sched :
+  forallb initial_pc threads = true ->
+  let c := run_adm sched (init_cfg n m threads) in
+  starting (sh c) = true -> count pastflag (thr c) = 0 /\ count finaliser (thr c) = 0.
+Proof. intros H. exact (no_finalise_while_starting n m threads sched H). Qed.
+Print Assumptions C17_no_finalise_while_starting.
+
+(* no dead pid stays in the group: its entries are exactly the members still registered in the node
+   plus those whose terminate call is on its way to delete them *)
+Theorem C17_group_exact n m threads sched :
+  forallb initial_pc threads = true ->
+  let c := run_adm sched (init_cfg n m threads) in
+  na (sh c) + count (deleter (gen (sh c))) (thr c) = ng (sh c).
+Proof. intros H. exact (group_exact n m threads sched H). Qed.
+Print Assumptions C17_group_exact.
 
 (* ... with the causing reason: sequentially exactly (stop: shutdown / kill; C17_mode_rule: r / normal) *)
 Theorem C17_stop_cause a x force :
@@ -67,17 +182,23 @@ Theorem C17_cause_race_refuted :
 Proof. exact cause_race_refuted. Qed.
 Print Assumptions C17_cause_race_refuted.
 
-Theorem C17_back_to_loaded_restartable n m threads sched mode' :
+(* back to loaded = nothing left (unless a failed start has just been rolled back and a member it
+   killed has not terminated yet: ghost rbk, known finding rollback-busy) ... *)
+Theorem C17_back_to_loaded_clean n m threads sched :
   forallb initial_pc threads = true ->
   let c := run_adm sched (init_cfg n m threads) in
-  (st (sh c) = SL \/ st (sh c) = SUnl -> na (sh c) = 0 /\ ng (sh c) = 0) /\
-  (st (sh c) = SL ->
-     step_pc (sh c) (S_cas mode' None) = Some (started (sh c) mode', Done 0) /\
-     st (started (sh c) mode') = SR /\ na (started (sh c) mode') = nmem (sh c) /\
-     starts (started (sh c) mode') = S (starts (sh c)) /\ runterms (started (sh c) mode') = 0).
-Proof.
-  intros H. split; [exact (loaded_clean n m threads sched H) | exact (restartable n m threads sched mode')].
-Qed.
+  st (sh c) = SL \/ st (sh c) = SUnl -> rbk (sh c) = false -> na (sh c) = 0 /\ ng (sh c) = 0.
+Proof. intros H. exact (loaded_clean n m threads sched H). Qed.
+Print Assumptions C17_back_to_loaded_clean.
+
+(* ... and restartable: the start call of a loaded application with nothing left, run alone, spawns
+   every member, runs the Start callback once and returns nil with the application running *)
+Theorem C17_back_to_loaded_restartable s mode' :
+  st s = SL -> na s = 0 -> ng s = 0 -> 0 < nmem s ->
+  exists s', run (rep 0 (2 * nmem s + 5)) (mk_cfg s [S_cas mode' None]) = mk_cfg s' [Done 0] /\
+    st s' = SR /\ na s' = nmem s /\ ng s' = nmem s /\ starts s' = S (starts s) /\
+    runstarts s' = 1 /\ runterms s' = 0 /\ starting s' = false /\ gen s' = S (gen s).
+Proof. exact (restartable s mode'). Qed.
 Print Assumptions C17_back_to_loaded_restartable.
 
 Theorem C17_stop_truthful n m threads sched i p s' :
@@ -85,7 +206,7 @@ Theorem C17_stop_truthful n m threads sched i p s' :
   let c := run_adm sched (init_cfg n m threads) in
   nth_error (thr c) i = Some p -> returns_ok p = true ->
   step_pc (sh c) p = Some (s', Done 0) ->
-  na (sh c) = 0 /\ ng (sh c) = 0.
+  rbk (sh c) = false -> na (sh c) = 0 /\ ng (sh c) = 0.
 Proof. intros H. exact (stop_truthful n m threads sched H i p s'). Qed.
 Print Assumptions C17_stop_truthful.
 
@@ -95,7 +216,14 @@ Theorem C17_stop_truthful_seq a x force x' e :
 Proof. exact (seq_stop_truthful a x force x' e). Qed.
 Print Assumptions C17_stop_truthful_seq.
 
-(* without the guard: a start racing with an in-flight terminate call (known finding restart-race) *)
+(* without the rbk guard refuted: a failed start returns, and a stop call reports success, while a
+   member the roll-back killed is still alive (known finding rollback-busy) *)
+Theorem C17_rollback_busy_refuted :
+  exists threads sched, forallb initial_pc threads = true /\ rollback_busy_b threads sched = true.
+Proof. exact rollback_busy_refuted. Qed.
+Print Assumptions C17_rollback_busy_refuted.
+
+(* without the quiescence guard: a start racing with an in-flight terminate call (known finding restart-race) *)
 Theorem C17_restart_race_refuted :
   exists threads sched, forallb initial_pc threads = true /\ restart_race_b threads sched = true.
 Proof. exact restart_race_refuted. Qed.
